@@ -420,12 +420,28 @@ def cargo_build(crate_dir, features=(), release=False, timeout=3000, extra_env=N
 
 
 def harness_build(name="ds_driver", features=()):
-    """build /verif/harness/<name> against /repo's working tree; returns (binary or None, log)"""
+    """build /verif/harness/<name> against /repo's working tree; returns (binary or None, log).
+    With VERIF_REPO set (mutation experiments on a scratch worktree) a copy of the crate with its path
+    dependencies redirected is built into a separate target directory."""
     d = os.path.join(VERIF, "harness", name)
-    rc, out = cargo_build(d, features=features)
+    tdir = os.path.join(BUILD, "target")
+    extra = None
+    if REPO != "/repo":
+        h = hashlib.sha1(REPO.encode()).hexdigest()[:8]
+        alt = os.path.join(BUILD, "harness_alt_" + h, name)
+        if os.path.exists(alt):
+            shutil.rmtree(alt)
+        shutil.copytree(d, alt, ignore=shutil.ignore_patterns("target", "Cargo.lock"))
+        ct = os.path.join(alt, "Cargo.toml")
+        txt = open(ct).read().replace('"/repo/', '"%s/' % REPO)
+        open(ct, "w").write(txt)
+        d = alt
+        tdir = os.path.join(BUILD, "target_alt_" + h)
+        extra = dict(CARGO_TARGET_DIR=tdir)
+    rc, out = cargo_build(d, features=features, extra_env=extra)
     if rc:
         return None, out
-    return os.path.join(BUILD, "target", "debug", name), out
+    return os.path.join(tdir, "debug", name), out
 
 
 def ds_driver_build():
